@@ -22,5 +22,11 @@ theorem C09_gen_poolStartRollback : Generated.poolStartRollback = some startRoll
 /-- The future's event publishes last: `EventData.set` / `raise_exception` store `__data` and `__exception` before
     `self.__event.set()` and execute nothing after it (the model's single `fut.set` step: flag and value together). -/
 theorem C09_gen_poolFuturePublishesLast : Generated.poolFuturePublishesLast = some futurePublishesLastSpec := by decide
+/-- `stop()` and `enqueue()` put into the queue with a blocking, timed `put` (the model's `stopPut` / `enqPut` steps): on
+    a bounded queue every listed worker gets its stop marker as soon as there is room for it. -/
+theorem C09_gen_poolQueuePuts : Generated.poolQueuePuts = some queuePutsSpec := by decide
+/-- The arguments of a task travel untouched from `enqueue(method, *args, **kwargs)` to the call `method(*args, **kwargs)`:
+    no keyword is intercepted, no container rebound or mutated (the model's tasks are opaque identities). -/
+theorem C09_gen_poolTaskArgsForwarded : Generated.poolTaskArgsForwarded = some taskArgsForwardedSpec := by decide
 
 end JRV.Props
